@@ -72,6 +72,38 @@ class Program:
         self._src_cache = {}
         self._index()
         self._scan_enums()
+        self._scan_structs()
+
+    def _scan_structs(self):
+        self._sorder = {}
+        for root, _, files in os.walk(os.path.join(self.src_root, 'src')):
+            for fn_ in files:
+                if not fn_.endswith('.rs'):
+                    continue
+                text = open(os.path.join(root, fn_), encoding='utf-8').read()
+                for m in re.finditer(r'\bstruct (\w+)\b[^;{(]*\{(.*?)\n\}', text, re.S):
+                    body = re.sub(r'//[^\n]*', '', m.group(2))
+                    body = re.sub(r'#\[[^\]]*\]', '', body)
+                    self._sorder.setdefault(m.group(1), re.findall(r'(?:pub(?:\([^)]*\))? )?(\w+)\s*:', body))
+
+    def struct_order(self, name):
+        """field names of a crate struct in declaration order (read from the source)"""
+        cache = self.__dict__.setdefault('_sorder', {})
+        if name in cache:
+            return cache[name]
+        for root, _, files in os.walk(os.path.join(self.src_root, 'src')):
+            for fn_ in files:
+                if not fn_.endswith('.rs'):
+                    continue
+                text = open(os.path.join(root, fn_), encoding='utf-8').read()
+                m = re.search(r'\bstruct %s\b[^;{(]*\{(.*?)\n\}' % re.escape(name), text, re.S)
+                if m:
+                    body = re.sub(r'//[^\n]*', '', m.group(1))
+                    body = re.sub(r'#\[[^\]]*\]', '', body)
+                    fields = re.findall(r'(?:pub(?:\([^)]*\))? )?(\w+)\s*:', body)
+                    cache[name] = fields
+                    return fields
+        raise Unmodelled('struct %s not found in the source' % name)
 
     def _src_line(self, file, line):
         lines = self._src_cache.get(file)
